@@ -114,7 +114,15 @@ def validate(c, tag, doc, meta):
 def run_random(seed, steps, profile, n):
     wd = V.workdir(PID, "hist")
     out = os.path.join(wd, "random_%d.json" % n)
-    rc, o = V.ckbv("c12", ["random", "--seed", seed, "--steps", steps, "--profile", profile, "--out", out], timeout=1500)
+    args = ["random", "--seed", seed, "--steps", steps, "--profile", profile, "--out", out]
+    rc, o = V.ckbv("c12", args, timeout=1500)
+    if rc == 3 and "WATCHDOG" in o:
+        # see c13.py: a hang that repeats at the same stage of the same seeded history is data, not tool trouble
+        st1 = re.findall(r"WATCHDOG: no progress for \d+s at stage '([^']*)'", o)
+        rc, o = V.ckbv("c12", args, timeout=1500)
+        st2 = re.findall(r"WATCHDOG: no progress for \d+s at stage '([^']*)'", o)
+        if rc == 3 and st1 and st1 == st2:
+            return {"hang": {"seed": seed, "steps": steps, "profile": profile, "stage": st1[-1]}}
     if rc != 0 or not os.path.exists(out):
         V.log(o[-3000:])
         raise V.ToolError("c12 random failed rc=%d" % rc)
@@ -174,6 +182,12 @@ def run(tier):
         seeds = [(V.seed() * 1000 + i, steps, i) for i in range(nh)]
         with cf.ThreadPoolExecutor(max_workers=8) as ex:
             docs = list(ex.map(lambda a: run_random(a[0], a[1], a[2], a[2]), seeds))
+        for d in [x for x in docs if "hang" in x]:
+            h = d["hang"]
+            c.violation("hang/%s" % re.sub(r"[^a-z]+", "-", h["stage"].lower()).strip("-"),
+                        "history seed %s profile %s: the node under test stopped responding (no progress for 180 s, twice, at stage '%s')" % (
+                            h["seed"], h["profile"], h["stage"]), {"kind": "hang", "args": h})
+        docs = [x for x in docs if "hang" not in x]
         tot = {k: 0 for k in ("events", "txs", "accepted", "rejected", "blocks", "reorgs", "detached_blocks", "concurrent_submits",
                               "side_branches_with_commits", "directed_reorgs")}
         stops = []
@@ -225,6 +239,13 @@ def replay(path, tier):
         res = V.tlc(PID, "MC_PoolReorg", p["cfg"], workers=8)
         if res["violated"]:
             c.violation("model/" + res["violated"], "model violation", p)
+        return 1 if c.violations else 0
+    if p["kind"] == "hang":
+        a = p["args"]
+        V.build_harness("c12")
+        d = run_random(a["seed"], a["steps"], a["profile"], 9999)
+        if "hang" in d:
+            c.violation("hang/replayed", "the node under test stops responding again at stage '%s'" % d["hang"]["stage"], p)
         return 1 if c.violations else 0
     validate(c, "replayed", {"universe": p["universe"], "genesis": p["genesis"], "events": p["events"]}, p.get("meta"))
     m = p.get("meta") or {}
